@@ -1,15 +1,17 @@
 #!/bin/bash
-# usage: verify_seed.sh <ID> <worktree> <outdir>
+# usage: verify_seed.sh <NAME> <worktree> <outdir>
 # Confirms in the scratch worktree: (1) existing tests pass with the change, (2) demo fails with it,
 # (3) demo passes without it. Leaves the worktree with the change applied.
+# NOTE: never use `git stash` here - the stash is shared by all worktrees of a repository.
 ID=$1; WT=$2; OUT=$3
 set -u
 cd "$WT" || exit 2
 git diff -- src > /tmp/seed/$ID.patch.check
 if ! diff -q /tmp/seed/$ID.patch.check "$OUT/patch.diff" >/dev/null; then echo "NOTE: patch.diff differs from worktree diff (using worktree diff)"; fi
-echo "== tests with change"; (meson test -C _build 2>&1 | grep -E "^Ok:|^Fail:|^Timeout:") 
+if [ ! -s /tmp/seed/$ID.patch.check ]; then echo "worktree has no change; applying patch.diff"; git apply "$OUT/patch.diff" || exit 2; git diff -- src > /tmp/seed/$ID.patch.check; fi
+echo "== tests with change"; (meson test -C _build 2>&1 | grep -E "^Ok:|^Fail:|^Timeout:")
 echo "== demo with change"; (bash "$OUT/demo/run.sh" "$WT" >/tmp/seed/$ID.demo_with.log 2>&1; echo "exit=$?")
-git stash -q
+git checkout -q -- src
 echo "== demo without change"; (bash "$OUT/demo/run.sh" "$WT" >/tmp/seed/$ID.demo_without.log 2>&1; echo "exit=$?")
-git stash pop -q
+git apply /tmp/seed/$ID.patch.check
 git status --short | head -5
